@@ -1,8 +1,75 @@
 import TRV.Oracle.Util
-/-! Oracle operations: Bpf (stub, filled in by the module that owns it). -/
-namespace TRV.Oracle.Bpf
-open TRV.Oracle
+import TRV.Model.Bpf
+import TRV.Spec.Filters
+import TRV.Generated.Filters
+/-!
+Oracle operations for the capture filters (C12).
 
-def handlers : List (String × Handler) := []
+* `bpf.run  <filter> [cfg…] <framehex>` → `1`/`0`: verdict of the generated program under `Bpf.exec`
+* `bpf.spec <filter> [cfg…] <framehex>` → `1`/`0`: reference predicate of `TRV.Spec.Filters`
+* `bpf.prog <filter> [cfg…]` → the generated program re-encoded as raw instructions
+  `op,jt,jf,k;…` (decimal), to compare with what `packets.VerifClassicBPF` returns
+
+* `bpf.sites` → the extracted installation sites `file|kind|hasSrc|hasDst;…`
+
+`<filter>` is `dropall | icmp | udp | synack` (no cfg) or `tcp <srcAddr> <dstAddr> <srcPort> <dstPort>`
+(decimal naturals; addresses as big-endian 32-bit values).
+-/
+namespace TRV.Oracle.Bpf
+open TRV TRV.Oracle TRV.Bpf TRV.Generated.Filters
+
+/-- filter selector: program, reference predicate, remaining tokens -/
+def select : List String → Option (List Instr × (Bytes → Bool) × List String)
+  | "dropall" :: r => some (dropAll, Spec.Filters.dropAllSpec, r)
+  | "icmp" :: r => some (icmp, Spec.Filters.icmpSpec, r)
+  | "udp" :: r => some (udp, Spec.Filters.udpSpec, r)
+  | "synack" :: r => some (synack, Spec.Filters.synackSpec, r)
+  | "tcp" :: sa :: da :: sp :: dp :: r => do
+    let sa ← sa.toNat?; let da ← da.toNat?; let sp ← sp.toNat?; let dp ← dp.toNat?
+    pure (tcpTuple sa da sp dp, Spec.Filters.tupleSpec sa da sp dp, r)
+  | _ => none
+
+def run : Handler := fun args => orBad do
+  let (p, _, rest) ← select args
+  match rest with
+  | [hex] => do let f ← parseHex hex; pure (showBool (accepts p f))
+  | _ => none
+
+def spec : Handler := fun args => orBad do
+  let (_, sp, rest) ← select args
+  match rest with
+  | [hex] => do let f ← parseHex hex; pure (showBool (sp f))
+  | _ => none
+
+/-- raw encoding of the modelled subset (inverse of the translator's decoding) -/
+def rawInstr : Instr → Option String
+  | .ldAbs 1 k => some s!"48,0,0,{k}"
+  | .ldAbs 2 k => some s!"40,0,0,{k}"
+  | .ldAbs 4 k => some s!"32,0,0,{k}"
+  | .ldInd 1 k => some s!"80,0,0,{k}"
+  | .ldInd 2 k => some s!"72,0,0,{k}"
+  | .ldInd 4 k => some s!"64,0,0,{k}"
+  | .ldxMsh k => some s!"177,0,0,{k}"
+  | .jeq k jt jf => some s!"21,{jt},{jf},{k}"
+  | .jset k jt jf => some s!"69,{jt},{jf},{k}"
+  | .ret k => some s!"6,0,0,{k}"
+  | _ => none
+
+def prog : Handler := fun args => orBad do
+  let (p, _, rest) ← select args
+  match rest with
+  | [] => do let is ← p.mapM rawInstr; pure (";".intercalate is)
+  | _ => none
+
+def kindName : FilterKind → String
+  | .none => "none" | .icmp => "icmp" | .udp => "udp" | .tcp => "tcp" | .synack => "synack"
+
+def sites : Handler
+  | [] => ";".intercalate (filterSites.map fun s =>
+      s!"{s.file}|{kindName s.kind}|{showBool (s.src != "")}|{showBool (s.dst != "")}")
+  | _ => badOp
+
+def handlers : List (String × Handler) :=
+  [("bpf.run", run), ("bpf.spec", spec), ("bpf.prog", prog), ("bpf.sites", sites)]
 
 end TRV.Oracle.Bpf
